@@ -78,6 +78,7 @@ theorem gobDecode_of_encodePost (d : Dawg) (wf : WF d) (bs : List Nat) (hpost : 
   unfold gobDecode
   rw [List.append_assoc, decodeUint64_encodeUint64_append _ hN]
   simp only [hN0, if_false]
+  rw [if_neg (by have := length_le_flatMap_encode L hLsmall recs; omega)]
   obtain ⟨ts, hids, hsz, _, htsid⟩ := decIds_spec L 0 (Array.replicate L.length Node.zero) (recs ++ [])
     (by simp) hLsmall
   rw [List.append_nil] at hids
